@@ -233,6 +233,24 @@ func explain(kind string, ci curveInfo, in []byte) []string {
 	return rs
 }
 
+// lenienceCause maps (decoder, leniency) to the root cause in the code; only
+// the combinations that the unchanged code is known to have get a stable name
+// (known_findings.json matches on it), everything else is `unexpected:...`.
+func lenienceCause(decoder, why string) string {
+	readerBased := decoder == "R1" || decoder == "GS" || decoder == "ES"
+	switch {
+	case why == "trailing-bytes" && readerBased:
+		return "reader-not-drained"
+	case why == "inner-trailing-bytes" && (decoder == "GS" || decoder == "ES"):
+		return "reader-not-drained"
+	case why == "short-bits" && decoder == "ES":
+		return "bits-read-not-full"
+	case why == "nonminimal-uvarint" && decoder != "R3":
+		return "uvarint-not-minimal"
+	}
+	return "unexpected:" + decoder + ":" + why
+}
+
 // ---------------------------------------------------------------- bases
 
 type baseMsg struct {
@@ -694,7 +712,7 @@ func codecMode(args []string) int {
 
 	circ, err := loadCircuit(repo)
 	if err != nil {
-		o.Fail("c18-harness", map[string]any{"err": err.Error()})
+		failK(o, "c18-harness", map[string]any{"err": err.Error()})
 		return 0
 	}
 	digits, sum := countsDigits(circ)
@@ -705,7 +723,7 @@ func codecMode(args []string) int {
 		a, b := inputPair(rng, 0)
 		s, err := runSession(ci, a, b, rng.U64(), rng.U64(), rng.U64())
 		if err != nil {
-			o.Fail("c18-session-error", map[string]any{"curve": ci.name, "err": err.Error(), "case": k})
+			failK(o, "c18-session-error", map[string]any{"curve": ci.name, "err": err.Error(), "case": k})
 			return 0
 		}
 		sessions[ci.name] = s
@@ -733,7 +751,7 @@ func codecMode(args []string) int {
 	// R3 does not depend on the curve; one real payload per curve in the
 	// thorough tier, P-256 and P-521 in the quick tier.
 	for _, ci := range curves {
-		if thorough || ci.name == "P-256" || ci.name == "P-521" {
+		if thorough || ci.name == "P-256" {
 			s := sessions[ci.name]
 			bases = append(bases, baseMsg{kind: "R3", ci: ci, slot: ci.name + ".R3.sess", data: s.r3b, sess: s})
 		}
@@ -741,15 +759,28 @@ func codecMode(args []string) int {
 
 	idx := 0
 	contBudget := map[string]int{}
-	contMax := 5
+	contMax := 2
 	if thorough {
-		contMax = 40
+		contMax = 12
 	}
+	// continuation runs on the two big curves only for the fields that matter
+	bigCurveTargets := map[string]bool{"sid": true, "ax": true, "ay": true, "ainvx": true, "ainvy": true, "scalar": true,
+		"sc0": true, "x0": true, "signs": true, "bits": true, "hints": true, "tables": true}
 	for _, bm := range bases {
 		o.Op(fmt.Sprintf("base %s %s", bm.slot, hxlib.Hex(bm.data)), "base "+tagOf(bm.data))
 		r := rng.Fork()
 		fs := layout(bm.kind, bm.ci, bm.data)
 		cases := systematic(bm, r)
+		if !strings.HasSuffix(bm.slot, ".sess") && !thorough {
+			// structured payloads: every third systematic case
+			var keep []mcase
+			for i, c := range cases {
+				if i == 0 || i%3 == int(rng.U64()%3) {
+					keep = append(keep, c)
+				}
+			}
+			cases = keep
+		}
 		nrand := cf.N
 		switch bm.kind {
 		case "R2", "ES":
@@ -797,40 +828,41 @@ func codecMode(args []string) int {
 			case "panic":
 				dt := detail()
 				dt["panic"] = d.pan
-				o.Fail("c18-decoder-panic", dt)
+				failK(o, "c18-decoder-panic", dt)
 				continue
 			case "err":
 				if mc.label == "pristine" {
 					dt := detail()
 					dt["err"] = d.err
-					o.Fail("c18-decode-of-encode-fails", dt)
+					failK(o, "c18-decode-of-encode-fails", dt)
 				}
 				continue
 			}
 			// accepted
 			if mc.label == "wrong-curve" {
-				o.Fail("c18-curve-mismatch-accepted", detail())
+				failK(o, "c18-curve-mismatch-accepted", detail())
 			}
 			if d.re == nil {
 				dt := detail()
 				dt["err"] = d.reErr
-				o.Fail("c18-reencode-fails", dt)
+				failK(o, "c18-reencode-fails", dt)
 				continue
 			}
 			// idempotence: the re-encoding decodes to the same value
 			d2 := decodeReal(mc.base.kind, mc.dec, d.re)
 			if d2.class != "ok" || d2.dump != d.dump || !bytes.Equal(d2.re, d.re) {
-				o.Fail("c18-enc-dec-not-identity", detail())
+				failK(o, "c18-enc-dec-not-identity", detail())
 			}
 			if mc.label == "pristine" && !bytes.Equal(d.re, input) {
-				o.Fail("c18-enc-dec-not-identity", detail())
+				failK(o, "c18-enc-dec-not-identity", detail())
 			}
 			if !bytes.Equal(d.re, input) {
 				for _, why := range explain(mc.base.kind, mc.dec, input) {
 					dt := detail()
 					dt["kind"] = why
+					dt["cause"] = lenienceCause(mc.base.kind, why)
 					o.Count("accepted_noncanonical_" + mc.base.kind + "_" + why)
-					o.Fail("c18-malformed-accepted", dt)
+					failK(o, "c18-malformed-accepted", dt)
 				}
 			} else {
 				o.Count("accepted_canonical_" + mc.base.kind)
@@ -846,7 +878,8 @@ func codecMode(args []string) int {
 			if !interesting || contBudget[key] >= contMax {
 				continue
 			}
-			if !thorough && (mc.dec.name == "P-384" || mc.dec.name == "P-521") && contBudget[key] >= 2 {
+			if !thorough && (mc.dec.name == "P-384" || mc.dec.name == "P-521") &&
+				(contBudget[key] >= 1 || !bigCurveTargets[mc.target]) {
 				continue
 			}
 			contBudget[key]++
@@ -857,14 +890,14 @@ func codecMode(args []string) int {
 				dt["round"] = round
 				dt["panic"] = res.msg
 				dt["cause"] = panicCause(mc.base.kind, d, mc.dec, res.msg)
-				o.Fail("c18-round-panic", dt)
+				failK(o, "c18-round-panic", dt)
 			}
 			if res.class == "ok" && mc.base.kind != "R1" {
 				want := s.gs.SessionID
 				if decodedSid(mc.base.kind, d) != want {
 					dt := detail()
 					dt["round"] = round
-					o.Fail("c18-session-mismatch-accepted", dt)
+					failK(o, "c18-session-mismatch-accepted", dt)
 				}
 			}
 		}
